@@ -19,6 +19,7 @@ package main
 import (
 	"fmt"
 	"os"
+	"path"
 	"path/filepath"
 	"regexp"
 	"sort"
@@ -515,11 +516,23 @@ func c02KindSwap(r *lib.Rng, old, nw *lib.Build) []string {
 		}
 		nw.Put(lib.Entry{Path: "waslink", Kind: "file", Data: f.Data})
 		return []string{"kindswap:link->file+copy:waslink"}
-	case 7: // dir -> link
+	case 7: // dir -> link (to a directory of the new build that has namesakes of what the old directory held, one and two levels down)
 		old.Put(lib.Entry{Path: "wasdir2/x", Kind: "file", Data: c02Content(r, 20)})
 		nw.Remove("wasdir2")
-		nw.Put(lib.Entry{Path: "wasdir2", Kind: "link", Dest: "a"})
-		return []string{"kindswap:dir->link:wasdir2"}
+		if r.Bool() {
+			nw.Put(lib.Entry{Path: "wasdir2", Kind: "link", Dest: "a"})
+			return []string{"kindswap:dir->link:wasdir2"}
+		}
+		old.Put(lib.Entry{Path: "wasdir2/sub/y", Kind: "file", Data: c02Content(r, 25)})
+		old.Put(lib.Entry{Path: "wasdir2/sub/sub/z", Kind: "file", Data: c02Content(r, 30)})
+		nw.Put(lib.Entry{Path: "wasdir2", Kind: "link", Dest: "linked"})
+		nw.Put(lib.Entry{Path: "linked/sub", Kind: "dir"})
+		for _, p := range []string{"x", "sub/y", "sub/sub/z"} {
+			if r.Chance(2, 3) {
+				nw.Put(lib.Entry{Path: "linked/" + p, Kind: "file", Data: append(c02Content(r, r.Range(1, 60)), 11)})
+			}
+		}
+		return []string{"kindswap:dir->link+namesakes:wasdir2"}
 	default: // link -> dir
 		old.Put(lib.Entry{Path: "waslink2", Kind: "link", Dest: "a"})
 		nw.Remove("waslink2")
@@ -528,22 +541,38 @@ func c02KindSwap(r *lib.Rng, old, nw *lib.Build) []string {
 	}
 }
 
-// c02Reserved puts an entry whose name has the form Commit uses for its temporary files.
+// c02Reserved puts an entry whose name has the form Commit uses for its temporary files: next to
+// one of the first three files (the ones the named shapes rename onto each other) or any other
+// file, as a regular file, a symlink or a directory, in the old build, the new build or both.
 func c02Reserved(r *lib.Rng, old, nw *lib.Build) []string {
 	files := old.Files()
 	f := files[r.Intn(len(files))]
+	if r.Chance(2, 3) {
+		f = files[r.Intn(3)]
+	}
 	name := fmt.Sprintf("%s.butler-rename-%d", f.Path, r.Range(1, 2))
-	e := lib.Entry{Path: name, Kind: "file", Data: c02Content(r, 40)}
-	switch r.Intn(3) {
+	var e lib.Entry
+	switch r.Intn(4) {
+	case 0:
+		e = lib.Entry{Path: name, Kind: "link", Dest: f.Path}
+	case 1:
+		e = lib.Entry{Path: name, Kind: "dir"}
+	default:
+		e = lib.Entry{Path: name, Kind: "file", Data: c02Content(r, 40)}
+	}
+	where := "both"
+	switch r.Intn(4) {
 	case 0:
 		old.Put(e)
 		nw.Put(e)
 	case 1:
 		old.Put(e)
+		where = "old"
 	default:
 		nw.Put(e)
+		where = "new"
 	}
-	return []string{"reserved-name:" + name}
+	return []string{"reserved-name:" + name + ":" + e.Kind + ":" + where}
 }
 
 // c02MapPool: short names; byte order = the containers' order, so kept / duplicated / renamed
@@ -716,10 +745,22 @@ func c02Corpus() []c02Fixed {
 		{"probe/link->file+new", []lib.Entry{fE("k", Y), fE("t", Z), lE("l", "t")}, []lib.Entry{fE("k", Y), fE("t", Z), fE("l", X)}},
 		// dir -> link while an old entry below it has a namesake below the link's destination
 		{"probe/dir->link+ghost-through-link", []lib.Entry{fE("d/f", X), fE("c/f", Y)}, []lib.Entry{lE("d", "c"), fE("c/f", Y)}},
+		// the same two or more levels below the link, below a nested link, with a namesake that is kept / an empty directory / a symlink
+		{"probe/dir->link+deep-ghost-through-link", []lib.Entry{fE("cur/bin/tool", X), fE("readme", Z)}, []lib.Entry{fE("v2/bin/tool", Y), lE("cur", "v2"), fE("readme", Z)}},
+		{"probe/nested-dir->link+deep-ghosts", []lib.Entry{fE("p/cur/bin/deep/x", X), dE("p/cur/bin/emptyd"), lE("p/cur/bin/lnk", "x"), fE("p/cur/tool", Z), fE("p/v2/bin/deep/x", Y)},
+			[]lib.Entry{lE("p/cur", "v2"), fE("p/v2/bin/deep/x", Y), dE("p/v2/bin/emptyd"), lE("p/v2/bin/lnk", "deep"), fE("p/v2/tool", Z+"!")}},
+		{"probe/dir->link-chain+deep-ghost", []lib.Entry{fE("cur/a/b/c", X), fE("k", Z)}, []lib.Entry{lE("cur", "latest"), lE("latest", "lib/v2"), fE("lib/v2/a/b/c", Y), fE("k", Z)}},
 		{"probe/emptydir->file", []lib.Entry{dE("e"), fE("k", Y)}, []lib.Entry{fE("e", Z), fE("k", Y)}},
 		// proof-forced hypothesis H_names: the build really contains b.butler-rename-1 while a -> b -> c
 		{"names/reserved-chain", []lib.Entry{fE("a", X), fE("b", Y), fE("b.butler-rename-1", Z)}, []lib.Entry{fE("b", X), fE("c", Y), fE("b.butler-rename-1", Z)}},
 		{"names/reserved-swap", []lib.Entry{fE("a", X), fE("b", Y), fE("a.butler-rename-2", Z), fE("b.butler-rename-1", Z+"1")}, []lib.Entry{fE("b", X), fE("a", Y), fE("a.butler-rename-2", Z), fE("b.butler-rename-1", Z+"1")}},
+		// the temporary name belongs to an entry of the new build only: a symlink / a directory (both on disk before the
+		// transpositions run), the destination of another rename; to a rename source of the old build only
+		{"names/new-link-at-tempname", []lib.Entry{fE("a", X), fE("b", Y)}, []lib.Entry{fE("b", X), fE("c", Y), lE("b.butler-rename-1", "c")}},
+		{"names/new-dir-at-tempname", []lib.Entry{fE("m/a", X), fE("m/b", Y)}, []lib.Entry{fE("m/b", X), fE("m/c", Y), fE("m/b.butler-rename-1/inside", Z)}},
+		{"names/rename-dest-at-tempname", []lib.Entry{fE("a", X), fE("b", Y), fE("q", Z)}, []lib.Entry{fE("b", X), fE("c", Y), fE("b.butler-rename-1", Z)}},
+		{"names/old-rename-source-at-tempname", []lib.Entry{fE("a", X), fE("b", Y), fE("b.butler-rename-1", Z)}, []lib.Entry{fE("b", X), fE("c", Y), fE("q", Z)}},
+		{"names/swap+new-links-at-tempnames", []lib.Entry{fE("a", X), fE("b", Y)}, []lib.Entry{fE("a", Y), fE("b", X), lE("a.butler-rename-1", "a"), lE("a.butler-rename-2", "a"), lE("b.butler-rename-1", "b"), dE("b.butler-rename-2")}},
 		// regression shapes
 		{"shape/swap", []lib.Entry{fE("a", X), fE("b", Y)}, []lib.Entry{fE("a", Y), fE("b", X)}},
 		{"shape/chain", []lib.Entry{fE("a", X), fE("b", Y), fE("c", Z)}, []lib.Entry{fE("b", X), fE("c", Y)}},
@@ -849,12 +890,14 @@ func c02Classify(old, nw *lib.Build, l *c02Lists) *c02Shapes {
 			}
 		}
 	}
+	seenGhostLink := map[string]bool{}
 	for _, e := range nw.Entries {
 		if e.Kind == "link" && kindAt(old, e.Path) == "dir" {
 			for _, o := range old.Entries {
 				if strings.HasPrefix(o.Path, e.Path+"/") {
-					through := e.Dest + strings.TrimPrefix(o.Path, e.Path)
-					if nw.Get(through) != nil {
+					through := path.Join(path.Dir(e.Path), e.Dest) + strings.TrimPrefix(o.Path, e.Path)
+					if nw.Get(through) != nil && !seenGhostLink[e.Path] {
+						seenGhostLink[e.Path] = true
 						s.ghostLink = append(s.ghostLink, e.Path)
 					}
 				}
@@ -1448,6 +1491,36 @@ func runC02(c *Ctx) error {
 		cr := r.Fork()
 		old, nw, rel := c02GenMap(cr)
 		cls := "map"
+		opt := i%4 == 3
+		if opt {
+			cls += "/opt"
+		}
+		if err := add(c02Spec{class: cls, old: old, nw: nw, rel: rel, optimize: opt, corr: true}); err != nil {
+			return err
+		}
+		idx++
+	}
+	// a directory replaced by a symlink whose destination holds namesakes of the old subtree; clashing
+	// transpositions next to entries that carry the temporary names (model correspondence)
+	n = c.N(24, 400)
+	for i := 0; i < n; i++ {
+		cr := r.Fork()
+		old, nw, rel := c02GenDirToLink(cr)
+		cls := "dir->link"
+		opt := i%4 == 3
+		if opt {
+			cls += "/opt"
+		}
+		if err := add(c02Spec{class: cls, old: old, nw: nw, rel: rel, optimize: opt, corr: true}); err != nil {
+			return err
+		}
+		idx++
+	}
+	n = c.N(24, 400)
+	for i := 0; i < n; i++ {
+		cr := r.Fork()
+		old, nw, rel := c02GenTmpNames(cr)
+		cls := "tmpnames"
 		opt := i%4 == 3
 		if opt {
 			cls += "/opt"
